@@ -189,6 +189,22 @@ class _VersionIndependentUnmarshaller:
 
         return self.r_object()
 
+    def r_bytes(self, n):
+        """Read `n` bytes (fewer at end of file). A length field of a corrupt
+        file can claim gigabytes; reading in pieces keeps us from allocating
+        a buffer of the claimed size up front."""
+        chunk_size = 1 << 20
+        if n <= chunk_size:
+            return self.fp.read(n)
+        chunks = []
+        while n > 0:
+            chunk = self.fp.read(min(n, chunk_size))
+            if not chunk:
+                break
+            chunks.append(chunk)
+            n -= len(chunk)
+        return b"".join(chunks)
+
     # Python 3.4+ support for reference objects.
     # The names follow marshal.c
     def r_ref_reserve(self, obj, save_ref):
@@ -299,7 +315,7 @@ class _VersionIndependentUnmarshaller:
     # float - Seems not in use after Python 2.4
     def t_float(self, save_ref, bytes_for_s=False):
         strsize = unpack("B", self.fp.read(1))[0]
-        s = self.fp.read(strsize)
+        s = self.r_bytes(strsize)
         return self.r_ref(float(s), save_ref)
 
     def t_binary_float(self, save_ref, bytes_for_s=False):
@@ -328,7 +344,7 @@ class _VersionIndependentUnmarshaller:
         ``bytes_for_s`` distinguishes what we need.
         """
         strsize = unpack("<i", self.fp.read(4))[0]
-        s = self.fp.read(strsize)
+        s = self.r_bytes(strsize)
         if not bytes_for_s:
             s = compat_str(s)
         return self.r_ref(s, save_ref)
@@ -342,7 +358,7 @@ class _VersionIndependentUnmarshaller:
         """
         # FIXME: check
         strsize = unpack("<i", self.fp.read(4))[0]
-        interned = compat_str(self.fp.read(strsize))
+        interned = compat_str(self.r_bytes(strsize))
         self.internStrings.append(interned)
         return self.r_ref(interned, save_ref)
 
@@ -353,20 +369,20 @@ class _VersionIndependentUnmarshaller:
         bytes.
         """
         strsize = unpack("<i", self.fp.read(4))[0]
-        s = self.fp.read(strsize)
+        s = self.r_bytes(strsize)
         s = compat_str(s)
         return self.r_ref(s, save_ref)
 
     # Since Python 3.4
     def t_short_ASCII(self, save_ref, bytes_for_s=False):
         strsize = unpack("B", self.fp.read(1))[0]
-        return self.r_ref(compat_str(self.fp.read(strsize)), save_ref)
+        return self.r_ref(compat_str(self.r_bytes(strsize)), save_ref)
 
     # Since Python 3.4
     def t_short_ASCII_interned(self, save_ref, bytes_for_s=False):
         # FIXME: check
         strsize = unpack("B", self.fp.read(1))[0]
-        interned = compat_str(self.fp.read(strsize))
+        interned = compat_str(self.r_bytes(strsize))
         self.internStrings.append(interned)
         return self.r_ref(interned, save_ref)
 
@@ -375,15 +391,15 @@ class _VersionIndependentUnmarshaller:
         strsize = unpack("<i", self.fp.read(4))[0]
         if self.marshal_version >= 3:
             # Since 3.4 this is interned text, written like TYPE_UNICODE
-            interned = self.fp.read(strsize).decode("utf-8", "surrogatepass")
+            interned = self.r_bytes(strsize).decode("utf-8", "surrogatepass")
         else:
-            interned = compat_str(self.fp.read(strsize))
+            interned = compat_str(self.r_bytes(strsize))
         self.internStrings.append(interned)
         return self.r_ref(interned, save_ref)
 
     def t_unicode(self, save_ref, bytes_for_s=False):
         strsize = unpack("<i", self.fp.read(4))[0]
-        unicodestring = self.fp.read(strsize)
+        unicodestring = self.r_bytes(strsize)
         if PYTHON_VERSION_TRIPLE >= (3, 0) and self.version_tuple < (3, 0):
             string = UnicodeForPython3(unicodestring)
         else:
